@@ -1071,6 +1071,62 @@ def _build_e1(ctx):
     return exe
 
 
+def run_long_records(ctx):
+    """Records longer than the 64 KB log buffer (native squid / common / combined formats with log_mime_hdrs on, whose
+    records are written in several pieces): every transaction must still produce exactly one line, in order, and the
+    file must end with a newline.  Returns (violations, number of records checked)."""
+    pb = ls.port_base_for_check(ctx.pid, 0, slot=1)
+    w = ls.World(ctx, 'longrec', pb, memory_cache=False)
+    d = w.sq.dir
+    fmts = ('squid', 'common', 'combined')
+    w.sq.conf_extra += '\nlog_mime_hdrs on\n' + ''.join('access_log stdio:%s/lr_%s.log logformat=%s\n' % (d, f, f) for f in fmts)
+    pads = [None, b'[' * 30000, None, b'a' * 45000, b']' * 22000, None]     # quoted: 90 KB, 45 KB, 66 KB
+    vio = []
+    w.start()
+    try:
+        for k, pad in enumerate(pads):
+            req = ('GET %s HTTP/1.1\r\nHost: %s\r\n' % (w.url('/lr/t%dz' % k), w.hostport())).encode('latin1')
+            if pad is not None:
+                req += b'X-Pad: ' + pad + b'\r\n'
+            req += b'\r\n'
+
+            def responder(m):
+                return ('HTTP/1.1 200 OK\r\nDate: %s\r\nContent-Length: 2\r\nCache-Control: no-store\r\n\r\nok' % ls.http_date(w.sq.now_us)).encode('latin1')
+            ex = w.fetch(req, responder)
+            w.close_origin_conns()
+            if not (ex.response and ex.response.complete and ex.response.status == 200):
+                raise HarnessError('long-record family: transaction %d was not answered 200: %r' % (k, ex.client_bytes[:200]))
+        w.sq.settle(2)
+        hp = w.sq.health_problems()
+        if hp:
+            vio.append(Violation('longrec:crash', 'squid crashed/asserted while logging long records: %s' % '; '.join(hp)[:1500], {'case': {'longrec': True}}))
+        nrec = 0
+        for f in fmts:
+            try:
+                data = open(os.path.join(d, 'lr_%s.log' % f), 'rb').read()
+            except OSError:
+                data = b''
+            lines = data.split(b'\n')
+            problems = []
+            if not data.endswith(b'\n'):
+                problems.append('the file does not end with a newline')
+            lines = lines[:-1] if data.endswith(b'\n') else lines
+            if len(lines) != len(pads):
+                problems.append('%d lines for %d transactions' % (len(lines), len(pads)))
+            for i, ln in enumerate(lines[:len(pads)]):
+                tags = re.findall(rb'/lr/t(\d+)z', ln)
+                if not tags or any(int(t) != i for t in tags):
+                    problems.append('line %d carries the URL tag(s) %r (expected only t%d): %r ... %r' % (i, [t.decode() for t in tags][:4], i, ln[:80], ln[-60:]))
+                    break
+                nrec += 1
+            if problems:
+                vio.append(Violation('longrec:%s' % f, 'log_mime_hdrs on, built-in %s format, records of up to 90 KB: %s' % (f, '; '.join(problems)[:900]),
+                                     {'case': {'longrec': True}}))
+        return vio, nrec
+    finally:
+        w.stop()
+
+
 def run(ctx):
     # ---- E1 half
     exe = _build_e1(ctx)
@@ -1099,7 +1155,11 @@ def run(ctx):
         if fwd < evals // 4 or rej < 20 or r['exact_tx'] < evals // 4 or r['builtin_lexed'] < evals:
             raise HarnessError('vacuity guard (E3): forwarded=%d rejected=%d exact-compared=%d builtin=%d of %d: %r' % (
                 fwd, rej, r['exact_tx'], r['builtin_lexed'], evals, oc))
-    cov = {'evaluations': evals + m['evaluations'], 'distinct_nontrivial': r['rich'] + e1_nontrivial, 'rule': RULE,
+    lr_vio, lr_records = run_long_records(ctx)
+    vio += lr_vio
+    if not lr_vio and lr_records < 18:
+        raise HarnessError('vacuity guard (long records): only %d records checked' % lr_records)
+    cov = {'evaluations': evals + m['evaluations'] + 6, 'distinct_nontrivial': r['rich'] + e1_nontrivial, 'rule': RULE,
            'samples': r['samples'] + [{'e1_case': x} for x in m['samples'][:3]],
            'exhaustive': not r['deadline_hit'] and evals == r['total'] and not m['deadline_hit'],
            'e3': {'transactions_cases': evals, 'cases_total': r['total'], 'nontrivial': r['rich'], 'outcome_classes': oc,
@@ -1108,6 +1168,7 @@ def run(ctx):
                   'builtin_records_lexed': r['builtin_lexed'], 'kicks': r['kicks'], 'squid_starts': r['starts'],
                   'determinism_replays': r['replays'], 'fields_per_main_record': len(main_spec()) - 2,
                   'uri_whitespace_of_shards': r['uri_whitespace_of_shards'], 'deadline_hit': r['deadline_hit']},
+           'long_record_family': {'transactions': 6, 'native_formats': 3, 'records_checked': lr_records},
            'wall_s_build_e1_e3': [round(t0 - ctx.t0, 1), round(t1 - t0, 1), round(t2 - t1, 1)],
            'e1': {'strings': m['evaluations'], 'nontrivial': e1_nontrivial, 'outcome_classes': m['outcomes'], 'counters': c1,
                   'deadline_hit': m['deadline_hit']}}
